@@ -154,6 +154,13 @@ fn run_seq(sc: &Value) {
         match s(st, "act").as_str() {
             "New" => {
                 inj = Some(in_lib(InjectorPP::new));
+                if sc.get("unmet_counted").and_then(|x| x.as_bool()).unwrap_or(false) {
+                    // the same injector also carries a counted fake that will never be called: its verifier
+                    // speaks at the scope exit, which must not disturb the restoration of the async fakes
+                    crate::pool::SITE_N[20].store(5, SeqCst);
+                    crate::pool::SITE_FAKE[20].store(1, SeqCst);
+                    in_lib(|| inj.as_mut().unwrap().when_called(injectorpp::func!(crate::pool::tb3, fn(u32) -> bool)).will_execute(crate::pool::counted_site(20)));
+                }
                 emit(json!({"ev":"New"}));
             }
             "Fake" => {
@@ -179,8 +186,10 @@ fn run_seq(sc: &Value) {
                     "body":BODY[idx(&a)].load(SeqCst) - b0,"evals":EVALS.load(SeqCst) - e0,"sibling_bodies_ran":sib_touched}));
             }
             "Drop" => {
-                in_lib(|| drop(inj.take()));
-                emit(json!({"ev":"Drop","live":crate::interpose::owned_live()}));
+                let taken = inj.take();
+                let r = std::panic::catch_unwind(std::panic::AssertUnwindSafe(move || in_lib(|| drop(taken))));
+                crate::interpose::set_in_lib(false);
+                emit(json!({"ev":"Drop","live":crate::interpose::owned_live(),"verifier_spoke":r.is_err()}));
             }
             "PanicDrop" => {
                 // the scope owning the injector unwinds
